@@ -218,8 +218,14 @@ func (vm *VM) Run(program *Program, env interface{}) (out interface{}, err error
 			a := vm.pop()
 			min := toInt(a)
 			max := toInt(b)
-			size := max - min + 1
-			if vm.memory+size >= vm.limit {
+			size := 0
+			if max >= min {
+				size = max - min + 1
+				if size <= 0 { // does not fit into int
+					panic("memory budget exceeded")
+				}
+			}
+			if size >= vm.limit-vm.memory {
 				panic("memory budget exceeded")
 			}
 			vm.push(makeRange(min, max))
